@@ -144,8 +144,9 @@ hc_prop("C04",
                   dict(family="frag-max", n=T(tier, 16, 400), params={"prop": "C04"}, scalable=False),
                   hc("frag", 1500, 60000, tier, "C04", frag_packets=T(tier, 40, 120)),
                   hc("frag-twin", 1000, 40000, tier, "C04"),
-                  dict(family="frag-rx", n=T(tier, 200, 8000), params={"batch": 10, "packets": T(tier, 60, 120)})],
-    GEN + "frag-len: ONE packet per scenario, every length 0..=5794 exhaustively (then sampled lengths up to 1 MB), fragments duplicated / reordered / partly lost and resent. frag-max: the same with ONE packet from the top of the legal range: MAX_PACKET_SIZE = 65536 x 1448 = 94 896 128 bytes (last fragment id 0xFFFF) and MAX-1, MAX-1447, MAX-1448, MAX-1449, 65535 and 65534 and 32768 (+-1 byte) and 16384 and 4097 fragments first, then sampled lengths of 5..95 MB, over 20 MB/s..4 GB/s links. frag: multi-fragment heavy mixes with rates that cut packets across flushes. frag-twin: same scenario twice, second run with datagrams appended whose header disagrees with the genuine fragments of the same packet (forward link ideal so the first fragment seen is genuine). non-trivial: multi-fragment packet delivered after >= 1 duplicate / delayed / lost fragment (frag-len: delivered), twin: >= 1 conflicting datagram injected. frag-rx: the harness is the sender: its own packets, cut with the reference codec, are handed to a real receiving HalfConnection one fragment per frame in any order (shuffled / reversed / in order, 1..64 packets interleaved, windows 4..4096, ids wrapping 2^20), repeated also after delivery and behind the window, with forged fragments for packets under assembly whose header disagrees with the first genuine one (fewer / more fragments, other channel, other leads; full-size or short) aimed at slots not yet received; non-trivial = a packet that had forged fragments aimed at a missing slot was delivered.",
+                  dict(family="frag-rx", n=T(tier, 200, 8000), params={"batch": 10, "packets": T(tier, 60, 120)}),
+                  hc("ideal", 400, 15000, tier, "C04", packets=T(tier, 300, 1500), tiny_bursts=1)],
+    GEN + "ideal (the small end of the size range): bursts of up to 5000 packets of 0..15 bytes submitted at once, so that data frames carry the largest number of datagrams a frame can hold, next to packets of every other size class; a backlog that stops moving counts as packets not arriving. frag-len: ONE packet per scenario, every length 0..=5794 exhaustively (then sampled lengths up to 1 MB), fragments duplicated / reordered / partly lost and resent. frag-max: the same with ONE packet from the top of the legal range: MAX_PACKET_SIZE = 65536 x 1448 = 94 896 128 bytes (last fragment id 0xFFFF) and MAX-1, MAX-1447, MAX-1448, MAX-1449, 65535 and 65534 and 32768 (+-1 byte) and 16384 and 4097 fragments first, then sampled lengths of 5..95 MB, over 20 MB/s..4 GB/s links. frag: multi-fragment heavy mixes with rates that cut packets across flushes. frag-twin: same scenario twice, second run with datagrams appended whose header disagrees with the genuine fragments of the same packet (forward link ideal so the first fragment seen is genuine). non-trivial: multi-fragment packet delivered after >= 1 duplicate / delayed / lost fragment (frag-len: delivered), twin: >= 1 conflicting datagram injected. frag-rx: the harness is the sender: its own packets, cut with the reference codec, are handed to a real receiving HalfConnection one fragment per frame in any order (shuffled / reversed / in order, 1..64 packets interleaved, windows 4..4096, ids wrapping 2^20), repeated also after delivery and behind the window, with forged fragments for packets under assembly whose header disagrees with the first genuine one (fewer / more fragments, other channel, other leads; full-size or short) aimed at slots not yet received; non-trivial = a packet that had forged fragments aimed at a missing slot was delivered.",
     "Wire monitor: no emitted frame > 1472 bytes; every datagram equals the right slice of its packet; byte-exact delivery (C01 oracle); single packets delivered exactly once; twin-run equality of deliveries under conflicting fragments; a stall with a backlog in these families counts as packets not arriving; synthetic-sender sessions: byte-identical, at-most-once, per-channel-ordered delivery and exactly-once for the ordered chain under arbitrary fragment arrival orders and forged disagreeing fragments. Length sweep is exhaustive for 0..=4*1448+2, everything else sampled.",
     "wire-slicing monitor + exhaustive length sweep + twin-run differential",
     dict(quick=1500, thorough=20000), require=["single_packet_multifrag", "single_packet_max_packet_size", "conflicting_datagrams_injected", "delivered_multifrag", "forged_into_slot_not_yet_received", "forged_fewer_fragments", "repeated_after_delivery"],
@@ -379,3 +380,33 @@ PROPS["C11"]["require_counters"] += ["c11_established_connections_watched"]
 for _p in ("C05", "C08", "C19"):
     PROPS[_p]["rule"] += FID
 PROPS["C08"]["rule"] += " lifecycle with sock_errors: the same sessions while the (virtual) operating system refuses every n-th send and fails every m-th receive call; only the event-stream, payload, crash and heap oracles are applied to those runs."
+
+# ---------------------------------------------------------------------------------------------
+# send errors of the operating system's socket (ninth round): the same endpoint families with a
+# send-fault plan — every n-th send of one or both sides refused, and / or bursts of 1 ms..5 s in
+# which every send of a side is refused; the socket works again after 40 s. The endpoint is told
+# about each failure (uflow ignores it: a refused send is a lost frame that still uses up its
+# resend / credit); the frame is in the wire trace as a dropped frame flagged `refused`. Every
+# oracle stays on: "first transmitted" clauses use what was really transmitted, "gave up before the
+# budget" clauses count attempts, byte accounting (C13, C18) leaves refused frames out.
+SE = {"send_errors": 1}
+def _add_runs(pid, extra, rule, counters):
+    prev = PROPS[pid]["runs"]
+    PROPS[pid]["runs"] = lambda tier, prev=prev, extra=extra: prev(tier) + extra(tier)
+    PROPS[pid]["rule"] += rule
+    PROPS[pid]["require_counters"] += counters
+SE_RULE = (" send_errors runs: the same sessions while the (virtual) operating system refuses sends of one or both endpoints (every 2nd..100th send, and / or bursts of 1 ms..5 s in which every send of a side fails; "
+           "the socket recovers after 40 s). A refused send is told to the endpoint and recorded as an attempted, untransmitted frame; all oracles of the family stay on.")
+_add_runs("C03", lambda tier: [dict(family="lifecycle", n=T(tier, 150, 5000), params=dict(SE), flavour="checked"),
+                               dict(family="timers", n=T(tier, 150, 5000), params=dict(SE), flavour="checked"),
+                               dict(family="limits", n=T(tier, 100, 3000), params=dict(SE), flavour="checked")], SE_RULE, ["sends_refused_by_the_socket"])
+_add_runs("C07", lambda tier: [ep("lifecycle", 200, 8000, tier, "C07", **SE), ep("limits", 200, 8000, tier, "C07", **SE)], SE_RULE, ["sends_refused_by_the_socket"])
+_add_runs("C08", lambda tier: [ep("lifecycle", 400, 15000, tier, "C08", **SE), ep("disconnect", 200, 8000, tier, "C08", **SE)], SE_RULE, ["sends_refused_by_the_socket"])
+_add_runs("C09", lambda tier: [ep("disconnect", 800, 30000, tier, "C09", **SE), ep("timers", 600, 20000, tier, "C09", **SE), ep("lifecycle", 300, 10000, tier, "C09", **SE)], SE_RULE, ["sends_refused_by_the_socket"])
+_add_runs("C10", lambda tier: [ep("timers", 1200, 40000, tier, "C10", **SE)], SE_RULE + " (The keepalive clause, whose premise is a loss-free path, is not judged in these runs.)", ["sends_refused_by_the_socket"])
+_add_runs("C13", lambda tier: [dict(family="ep-ideal", n=T(tier, 150, 6000), params=dict(SE))], SE_RULE + " (ep-ideal with send errors: only the byte accounting, crash, payload and heap verdicts are kept; refused frames are not counted as transmitted bytes.)", ["sends_refused_by_the_socket"])
+_add_runs("C14", lambda tier: [dict(family="ep-ideal", n=T(tier, 100, 4000), params=dict(SE))], SE_RULE, ["sends_refused_by_the_socket"])
+_add_runs("C17", lambda tier: [ep("limits", 800, 30000, tier, "C17", **SE)], SE_RULE, ["sends_refused_by_the_socket"])
+_add_runs("C18", lambda tier: [ep("amplify", 800, 30000, tier, "C18", **SE), ep("limits", 150, 6000, tier, "C18", **SE)], SE_RULE + " (Bytes of refused sends were never transmitted and are not counted.)", ["sends_refused_by_the_socket"])
+_add_runs("C19", lambda tier: [dict(family="lifecycle", n=T(tier, 150, 5000), params=dict(SE)), dict(family="limits", n=T(tier, 60, 2000), params=dict(SE))], SE_RULE, ["sends_refused_by_the_socket"])
+_add_runs("C01", lambda tier: [ep("lifecycle", 150, 5000, tier, "C01", **SE)], SE_RULE, ["sends_refused_by_the_socket"])
